@@ -41,6 +41,12 @@ pub fn parser_lossless(src: &str, syn: Syntax) -> bool {
     matches!(guarded(|| norm::parse(src, syn).map(|a| a.to_string() == src && lexer_agrees(&a, src, syn))), Ok(Ok(true)))
 }
 
+/// The trusted parser reports success but its tree does not print back to the input: tokens were dropped or
+/// invented (known finding KF-C07-fullmoon-lossy-parse, e.g. a Luau `type Foo =` at the end of the text)
+pub fn parser_drops_tokens(src: &str, syn: Syntax) -> bool {
+    matches!(guarded(|| norm::parse(src, syn).map(|a| a.to_string() != src)), Ok(Ok(true)))
+}
+
 /// Self-check of the checker's lexer (harness soundness, never a violation): its code-token boundaries must be
 /// the parser's (`5do` is one malformed number for a Lua lexer but `5` `do` for full_moon; such input is not judged).
 fn lexer_agrees(ast: &full_moon::ast::Ast, src: &str, syn: Syntax) -> bool {
@@ -322,6 +328,9 @@ pub fn c07(case: &Case, out: &Outcome, ticks: u64) -> Verdict {
                     return Verdict::Fail(format!("success returned for text that does not parse: {}", short(e, 120)));
                 }
             }
+            if parser_drops_tokens(&case.source, syn) {
+                return Verdict::Fail("success returned for text that the parser did not consume in full (its tree does not print back to the input)".to_string());
+            }
             if ticks > tick_bound(case.source.len()) {
                 return Verdict::Fail(format!("work bound exceeded: {ticks} formatter ticks for {} input bytes", case.source.len()));
             }
@@ -574,23 +583,6 @@ fn ast_json(src: &str, syn: Syntax) -> Option<serde_json::Value> {
     match guarded(|| norm::parse(src, syn).ok().map(|a| serde_json::to_value(a.nodes()).ok())) {
         Ok(Some(Some(v))) => Some(v),
         _ => None,
-    }
-}
-
-/// known finding D21: a single argument wrapped in redundant parentheses keeps the call parentheses on the first run
-pub fn c11_known_finding(case: &Case) -> Option<&'static str> {
-    use crate::cfg::CallParens;
-    if matches!(case.cfg.call_parentheses, CallParens::Always | CallParens::Input) {
-        return None;
-    }
-    let ast = ast_json(&case.source, case.cfg.syntax)?;
-    let mut calls = Vec::new();
-    let mut defs = Vec::new();
-    call_sites(&ast, &mut calls, &mut defs);
-    if calls.iter().any(|c| c.single == "ParenString" || c.single == "ParenTable") {
-        Some("KF-C11-parenthesised-single-argument")
-    } else {
-        None
     }
 }
 
@@ -996,9 +988,6 @@ pub fn c09(case: &Case, out: &Outcome) -> Verdict {
     }
     let syn = case.cfg.syntax;
     let Some((rs, re)) = case.range else { return Verdict::Skip("no range") };
-    if has_ignore_directive(&case.source) {
-        return Verdict::Skip("ignore directive present");
-    }
     let q = match out {
         Outcome::Ok(q) => q,
         Outcome::ParseError(_) => return Verdict::Skip("input does not parse"),
